@@ -430,6 +430,8 @@ pub mod uring {
 
   static SEND_POOL_TOTAL: AtomicUsize = AtomicUsize::new(0);
   static SEND_POOL_FREE: AtomicUsize = AtomicUsize::new(0);
+  static SEND_POOL_LEASES: AtomicUsize = AtomicUsize::new(0);
+  static RECV_CHUNKS_TAKEN: AtomicUsize = AtomicUsize::new(0);
   static RECV_CHUNKS_OUT: AtomicIsize = AtomicIsize::new(0);
   static RECV_RING_ENTRIES: AtomicUsize = AtomicUsize::new(0);
   static RECV_RING_PROVIDED: AtomicUsize = AtomicUsize::new(0);
@@ -452,6 +454,9 @@ pub mod uring {
     pub recv_ring_entries: usize,
     pub recv_ring_provided: usize,
     pub handlers: usize,
+    /// how often a send-pool buffer was handed out / a receive chunk was taken since start
+    pub send_pool_leases: usize,
+    pub recv_chunks_taken: usize,
   }
 
   pub fn gauges() -> Gauges {
@@ -462,6 +467,8 @@ pub mod uring {
       recv_ring_entries: RECV_RING_ENTRIES.load(Ordering::SeqCst),
       recv_ring_provided: RECV_RING_PROVIDED.load(Ordering::SeqCst),
       handlers: HANDLERS.load(Ordering::SeqCst),
+      send_pool_leases: SEND_POOL_LEASES.load(Ordering::SeqCst),
+      recv_chunks_taken: RECV_CHUNKS_TAKEN.load(Ordering::SeqCst),
     }
   }
 
@@ -470,10 +477,16 @@ pub mod uring {
   }
 
   pub(crate) fn send_pool(free: usize, total: usize) {
+    if free < SEND_POOL_FREE.load(Ordering::SeqCst) && total == SEND_POOL_TOTAL.load(Ordering::SeqCst) {
+      SEND_POOL_LEASES.fetch_add(1, Ordering::SeqCst);
+    }
     SEND_POOL_FREE.store(free, Ordering::SeqCst);
     SEND_POOL_TOTAL.store(total, Ordering::SeqCst);
   }
   pub(crate) fn recv_chunk(delta: isize) {
+    if delta > 0 {
+      RECV_CHUNKS_TAKEN.fetch_add(1, Ordering::SeqCst);
+    }
     RECV_CHUNKS_OUT.fetch_add(delta, Ordering::SeqCst);
   }
   pub(crate) fn recv_ring(provided: usize, entries: usize) {
